@@ -674,7 +674,7 @@ class WassersteinCase(Case):
             c.input_method = imeth
             c.params = {"method": method, "input_method": imeth, "n_components": n_comp, "reference_size": ref_size,
                         "metric": c.metric, "memory_size": c.memory_size, "random_state": rs, "n_svd_iter": 3,
-                        "max_distribution_size": 16}
+                        "max_distribution_size": tape.weighted("ot.maxdist", [(3, 16), (1, 2), (1, 3)])}
             if method == "LOT_sinkhorn":
                 c.params["sinkhorn_chunk_size"] = tape.choice("ot.chunk", [2, 3, 32])
             if imeth == "generator":
